@@ -23,6 +23,7 @@ typedef struct {
   int parks, scheduled, sched_bad, yields;
   int mailbox; int fin_exchanged;
   int other_joined;   /* another joiner's exchange took the hand-off from the finished fiber (WAIT_FOR_JOINER -> WAIT_TO_JOIN) */
+  fiber_t* taken_out;  /* the party clear_or_wait handed me (it has parked: its context is saved) */
   int woken_by_detach; int detach_saw_joiner; int ds_seen; /* detach_state as it was at my latest access to it (for an exchange: the value it replaced) */
   int t_freed;
 } ghost_t;
@@ -34,19 +35,20 @@ fiber_t* T;          /* the target fiber (heap object: reclaimed once its finish
 #include "src/fiber.c" /* woven */
 /* the private marker fiber_detach hands to a parked joiner (introduced by the D5 fix); a rename makes this TU fail to compile = undecided */
 #define C04_DETACH_MARKER ((void*)&fiber_join_detached_marker)
-static void spec_snap(void) {}
-static void spec_step(int site) {}
+static int l_ds;
+static int my_exchange_done;   /* my exchange on detach_state has decided my part; from then on the others see my value and follow the protocol */
+static void spec_snap(void) { if (T && !G.t_freed) l_ds = *(int*)&T->detach_state; }
+static void spec_step(int site) { if (T && !G.t_freed && *(int*)&T->detach_state != l_ds) my_exchange_done = 1; }
 static int ds_ok(int d) { return d == FIBER_DETACH_NONE || d == FIBER_DETACH_WAIT_FOR_JOINER || d == FIBER_DETACH_WAIT_TO_JOIN || d == FIBER_DETACH_DETACHED; }
 #define DS (*(int*)&T->detach_state)
 static int role_finisher, role_detacher;
 /* interference: the other parties act on T (only before I have been told, by my own exchange, what to do) */
-static int my_exchange_done;
 #define MB_EMPTY 0
 #define MB_FINISHER 1   /* the finished fiber is (or is about to be) parked in T.join_info */
 #define MB_OTHER 2      /* another joiner is parked there */
 #define MB_ME 3
 static void spec_env(int site) {
-  if (G.t_freed) return;
+  if (G.t_freed || my_exchange_done) return;
   if (verif_bool()) return;
   int d0 = DS;
   if (!role_finisher) {
@@ -71,9 +73,14 @@ static void spec_env(int site) {
     else if (k == 1) { DS = FIBER_DETACH_DETACHED; }
   }
 }
+#ifdef VERIF_NATIVE
+#define IN_T(a) ((char*)(a) >= (char*)T && (char*)(a) < (char*)(T + 1))
+#else
+#define IN_T(a) __CPROVER_same_object((a), T)
+#endif
 static void spec_read(int site, void* addr) {
   if (!G.t_freed && addr == (void*)&T->detach_state) G.ds_seen = DS;
-  VASSERT(!G.t_freed || !((char*)addr >= (char*)T && (char*)addr < (char*)(T + 1)), "O: C04 the finished fiber is not touched after it has been woken (it may already be reclaimed)");
+  VASSERT(!G.t_freed || !IN_T(addr), "O: C04 the finished fiber is not touched after it has been woken (it may already be reclaimed)");
 }
 #include "verif_point.inc"
 fiber_manager_t* fiber_manager_get(void) { return &VM0; }
@@ -94,20 +101,26 @@ void fiber_manager_set_and_wait(fiber_manager_t* m, void** location, void* value
 #endif
     if (!G.woken_by_detach) { G.fin = 1; *(void**)&ME.result = G.R; }   /* the finisher: delivers R into me, then wakes me */
     else *(void**)&ME.result = C04_DETACH_MARKER;                        /* fiber_detach: hands me its marker (what h_detach proves it does) */
-    /* T may be finished and reclaimed by the time I run again */
+    /* by the time I run again the target may be finished, DONE and reclaimed (woken by the finisher), or detached: T is no longer mine to read */
+    G.t_freed = 1;
   }
 }
 void* fiber_manager_clear_or_wait(fiber_manager_t* m, _Atomic(void*)* location) {
   VASSERT(m == &VM0 && location == (_Atomic(void*)*)&T->join_info, "C: take the parked party out of the target's mailbox");
   /* spins (yielding) until the mailbox is occupied; with an empty mailbox that nobody will fill it never returns */
-  if (!role_finisher && !role_detacher) { VASSUME(G.mailbox == MB_FINISHER || G.mailbox == MB_OTHER); if (G.mailbox == MB_OTHER) { G.mailbox = MB_EMPTY; return (void*)&OTHERJ; } }
-  if (role_finisher) VASSUME(G.mailbox == MB_ME);
+  VASSERT(role_finisher || role_detacher || G.ds_seen == FIBER_DETACH_WAIT_FOR_JOINER, "C04: a joiner takes the parked party out of the mailbox only when its own exchange replaced WAIT_FOR_JOINER (else it would wait forever - tryjoin would block - or wake another joiner)");
+  /* an empty mailbox that nobody will fill: the call never returns.  (Reachable only for a joiner arriving after the finisher already handed
+     its result to another joiner: the handle is being used after the fiber was joined - caller error, as with pthread_join.) */
+  VASSUME(G.mailbox != MB_EMPTY);
+  if (!role_finisher && !role_detacher) { if (G.mailbox == MB_OTHER) { G.mailbox = MB_EMPTY; G.taken_out = &OTHERJ; return (void*)&OTHERJ; } }
   G.mailbox = MB_EMPTY;
-  if (role_detacher) { G.detach_saw_joiner = (G.ds_seen == FIBER_DETACH_WAIT_TO_JOIN); return G.detach_saw_joiner ? (void*)&ME : (void*)T; }   /* a parked joiner (here: ME) or the parked finished fiber */
-  return role_finisher ? (void*)&ME : (void*)T;   /* the finisher finds the joiner, everybody else finds the finished fiber */
+  if (role_detacher) { G.detach_saw_joiner = (G.ds_seen == FIBER_DETACH_WAIT_TO_JOIN); G.taken_out = G.detach_saw_joiner ? &ME : T; return G.taken_out; }   /* a parked joiner (here: ME) or the parked finished fiber */
+  G.taken_out = role_finisher ? &ME : T;
+  return G.taken_out;   /* the finisher finds the joiner, everybody else finds the finished fiber */
 }
 void fiber_scheduler_schedule(fiber_scheduler_t* s, fiber_t* f) {
   if (f->state != FIBER_STATE_READY || G.scheduled) G.sched_bad = 1;
+  if (f != G.taken_out) G.sched_bad = 1;   /* C01: a fiber is made runnable only after it was taken out of the mailbox, i.e. after it has parked (context saved) */
   if (role_finisher && f == &ME && *(void**)&ME.result != G.R) G.sched_bad = 1;   /* the joiner is woken only after the return value is in it */
   G.scheduled++;
   if (!role_finisher && !role_detacher && f != T) G.sched_bad = 1;   /* a joiner only ever wakes the finished fiber, never another joiner */
@@ -116,12 +129,12 @@ void fiber_scheduler_schedule(fiber_scheduler_t* s, fiber_t* f) {
 static void init(int finisher) {
   role_finisher = finisher; role_detacher = 0; my_exchange_done = 0; G.detach_saw_joiner = 0;
   T = (fiber_t*)malloc(sizeof(fiber_t)); VASSUME(T != 0);
-  G.R = (void*)verif_u64(); VASSUME(G.R != C04_DETACH_MARKER); /* a user's return value cannot be the library's private marker */ G.parks = G.scheduled = G.sched_bad = G.yields = 0; G.woken_by_detach = 0; G.t_freed = 0; G.other_joined = 0;
+  G.R = (void*)verif_u64(); VASSUME(G.R != C04_DETACH_MARKER); /* a user's return value cannot be the library's private marker */ G.parks = G.scheduled = G.sched_bad = G.yields = 0; G.woken_by_detach = 0; G.t_freed = 0; G.other_joined = 0; G.taken_out = 0;
   G.mailbox = MB_EMPTY; G.fin_exchanged = 0;
   int d = verif_int(); VASSUME(ds_ok(d)); DS = d;
   G.fin = (d == FIBER_DETACH_WAIT_FOR_JOINER) ? 1 : verif_bool();
-  if (d == FIBER_DETACH_WAIT_FOR_JOINER) { G.fin_exchanged = 1; G.mailbox = verif_bool() ? MB_FINISHER : MB_EMPTY; if (G.mailbox == MB_EMPTY) G.other_joined = 1; }
-  if (d == FIBER_DETACH_WAIT_TO_JOIN) G.mailbox = finisher ? MB_ME : (verif_bool() ? MB_OTHER : MB_EMPTY);
+  if (d == FIBER_DETACH_WAIT_FOR_JOINER) { G.fin_exchanged = 1; G.mailbox = MB_FINISHER; }
+  if (d == FIBER_DETACH_WAIT_TO_JOIN) G.mailbox = finisher ? MB_ME : MB_OTHER;   /* (WAIT_TO_JOIN with an empty mailbox = already joined and reclaimed: calling anything on it is a use after free by the caller) */
   if (finisher) G.fin_exchanged = 0;
   *(void**)&T->result = (d == FIBER_DETACH_WAIT_FOR_JOINER) ? G.R : (void*)verif_u64();
   *(fiber_t**)&T->join_info = 0; T->state = FIBER_STATE_WAITING;
